@@ -126,8 +126,8 @@ def _job(job):
     raise ValueError(kind)
 
 
-SEPS_OK = ['', ' ', ':', '-', ',', '\t', '\n', '|', ' ', 'x', 'g']      # the theorem's domain (sep given to both)
-SEPS_MULTI = [', ', ' - ', '::', '\r\n', '  ']                               # correspondence only
+SEPS_OK = ['', ' ', ':', '-', ',', '\t', '\n', '|', ' ', 'x', 'g', '\\', ']', '[', '^', '.', '*', '+', '(', ')', '$', '?', '{', '}', '/', '_', '%']      # the theorem's domain (sep given to both)
+SEPS_MULTI = [', ', ' - ', '::', '\r\n', '  ', '--', '->', '-]', ' | ', '; ', ' ,', '\\d', '[^', '\\s', '%s', '{}']                               # correspondence only
 
 
 def run(out):
